@@ -766,6 +766,8 @@ def _slice_axis(I, d, sl):
 def getitem(I, t, key):
     IN = _IN()
     a = t.val
+    if isinstance(key, list) and any(isinstance(k, (slice, list, tuple, Tensor)) or k is None or k is Ellipsis for k in key):
+        key = tuple(key)  # torch treats such sequences as tuples
     if not isinstance(key, tuple):
         key = (key,)
     key = list(key)
@@ -930,6 +932,8 @@ def setitem(I, t, key, v):
     """t[key] = v  (in place on the heap cell)"""
     IN = _IN()
     a = t.val
+    if isinstance(key, list) and any(isinstance(k, (slice, list, tuple, Tensor)) or k is None or k is Ellipsis for k in key):
+        key = tuple(key)
     if not isinstance(key, tuple):
         key = (key,)
     key = list(key)
